@@ -129,67 +129,181 @@ type rangeLoop struct {
 	CompleteButErrors bool
 }
 
-// rangeLoopOf recognises the rangeindex loop that an element access
-// IndexAddr(S, idx) belongs to.
-func rangeLoopOf(ia *ssa.IndexAddr) *rangeLoop {
-	add, ok := ia.Index.(*ssa.BinOp)
-	if !ok || add.Op != token.ADD {
+// countedLoop is a loop whose index value takes 0, 1, …, Bound-1 in order,
+// in any of the three shapes go/ssa produces:
+//
+//	for i := 0; i < B; i++      header: i = phi(0, i+1); if i < B         (index = phi)
+//	for i, e := range S         header: p = phi(-1, p+1); if p+1 < len(S) (index = p+1)
+//	for i := range B            rotated: if 0 < B { body: i = phi(0, i+1); …; if i+1 < B goto body }
+type countedLoop struct {
+	Header *ssa.BasicBlock
+	Index  ssa.Value
+	Bound  ssa.Value
+	Blocks map[*ssa.BasicBlock]bool
+	// Complete: the only way out of the loop is the exhausted condition.
+	Complete bool
+	// CompleteButErrors: additionally the body may leave by returning a
+	// definitely non-nil error (or panicking).
+	CompleteButErrors bool
+}
+
+func lastIf(b *ssa.BasicBlock) *ssa.If {
+	if len(b.Instrs) == 0 {
 		return nil
 	}
-	phi, ok := add.X.(*ssa.Phi)
-	if !ok {
-		return nil
+	iff, _ := b.Instrs[len(b.Instrs)-1].(*ssa.If)
+	return iff
+}
+
+// countedLoopOf recognises the counted loop whose per-iteration index value is idx.
+func countedLoopOf(idx ssa.Value) *countedLoop {
+	idx = guard.Strip(idx)
+	isInc := func(v ssa.Value, phi *ssa.Phi) bool {
+		bo, ok := v.(*ssa.BinOp)
+		if !ok || bo.Op != token.ADD || bo.X != ssa.Value(phi) {
+			return false
+		}
+		one, isC := guard.ConstInt(bo.Y)
+		return isC && one == 1
 	}
-	if one, ok := guard.ConstInt(add.Y); !ok || one != 1 {
-		return nil
-	}
-	startsAtMinus1 := false
-	for _, e := range phi.Edges {
-		if c, ok := guard.ConstInt(e); ok && c == -1 {
-			startsAtMinus1 = true
-		} else if e != ssa.Value(add) {
+	lssBound := func(iff *ssa.If, x ssa.Value) ssa.Value {
+		if iff == nil {
 			return nil
 		}
-	}
-	h := phi.Block()
-	rl := &rangeLoop{Header: h, Slice: ia.X, Index: add, Blocks: natLoop(h)}
-	// header condition: add < len(S)
-	condOK := false
-	if iff, ok := h.Instrs[len(h.Instrs)-1].(*ssa.If); ok {
-		if cmp, ok := iff.Cond.(*ssa.BinOp); ok && cmp.Op == token.LSS && cmp.X == ssa.Value(add) {
-			if call, ok := cmp.Y.(*ssa.Call); ok {
-				if b, ok := call.Call.Value.(*ssa.Builtin); ok && b.Name() == "len" && len(call.Call.Args) == 1 && sameSliceValue(call.Call.Args[0], ia.X) {
-					condOK = true
-				}
+		if cmp, ok := iff.Cond.(*ssa.BinOp); ok {
+			if cmp.Op == token.LSS && cmp.X == x {
+				return cmp.Y
+			}
+			if cmp.Op == token.GTR && cmp.Y == x {
+				return cmp.X
 			}
 		}
+		return nil
 	}
-	exits := 0
-	errExits, otherExits := 0, 0
-	for b := range rl.Blocks {
-		for _, s := range b.Succs {
-			if !rl.Blocks[s] {
-				exits++
-				if b != h {
-					exits += 100
-					if ret, ok := s.Instrs[len(s.Instrs)-1].(*ssa.Return); ok && guard.DefinitelyFails(ret) {
-						errExits++
-					} else {
-						otherExits++
+	var cl *countedLoop
+	var exitFrom *ssa.BasicBlock // the block whose condition is the regular exit
+	// range-over-slice: idx = phi(-1, idx) + 1
+	if add, ok := idx.(*ssa.BinOp); ok && add.Op == token.ADD {
+		phi, isPhi := add.X.(*ssa.Phi)
+		if !isPhi || !isInc(add, phi) {
+			return nil
+		}
+		init := false
+		for _, e := range phi.Edges {
+			if c, isC := guard.ConstInt(e); isC && c == -1 {
+				init = true
+			} else if e != ssa.Value(add) {
+				return nil
+			}
+		}
+		h := phi.Block()
+		bound := lssBound(lastIf(h), add)
+		if !init || bound == nil {
+			return nil
+		}
+		cl = &countedLoop{Header: h, Index: add, Bound: bound, Blocks: natLoop(h)}
+		exitFrom = h
+	} else if phi, ok := idx.(*ssa.Phi); ok {
+		var inc ssa.Value
+		init := false
+		for _, e := range phi.Edges {
+			if c, isC := guard.ConstInt(e); isC && c == 0 {
+				init = true
+			} else if isInc(e, phi) && (inc == nil || inc == e) {
+				inc = e
+			} else {
+				return nil
+			}
+		}
+		if !init || inc == nil {
+			return nil
+		}
+		h := phi.Block()
+		if bound := lssBound(lastIf(h), phi); bound != nil {
+			// classic three-clause loop
+			cl = &countedLoop{Header: h, Index: phi, Bound: bound, Blocks: natLoop(h)}
+			exitFrom = h
+		} else {
+			// rotated range-over-int: the latch tests inc < B, the entry tests 0 < B
+			latch := inc.(*ssa.BinOp).Block()
+			bound := lssBound(lastIf(latch), inc)
+			if bound == nil {
+				return nil
+			}
+			entryOK := false
+			for _, pr := range h.Preds {
+				if h.Dominates(pr) {
+					continue
+				}
+				if iff := lastIf(pr); iff != nil {
+					if cmp, isB := iff.Cond.(*ssa.BinOp); isB && cmp.Op == token.LSS && cmp.Y == bound {
+						if z, isC := guard.ConstInt(cmp.X); isC && z == 0 && pr.Succs[0] == h {
+							entryOK = true
+						}
 					}
 				}
 			}
+			if !entryOK {
+				return nil
+			}
+			cl = &countedLoop{Header: h, Index: phi, Bound: bound, Blocks: natLoop(h)}
+			exitFrom = latch
+		}
+	} else {
+		return nil
+	}
+	exits, errExits, otherExits := 0, 0, 0
+	for b := range cl.Blocks {
+		for _, sc := range b.Succs {
+			if cl.Blocks[sc] {
+				continue
+			}
+			if b == exitFrom {
+				exits++
+				continue
+			}
+			if ret, ok := sc.Instrs[len(sc.Instrs)-1].(*ssa.Return); ok && guard.DefinitelyFails(ret) {
+				errExits++
+			} else if _, isPanic := sc.Instrs[len(sc.Instrs)-1].(*ssa.Panic); isPanic {
+				errExits++
+			} else {
+				otherExits++
+			}
 		}
 		if len(b.Instrs) > 0 {
-			switch b.Instrs[len(b.Instrs)-1].(type) {
-			case *ssa.Return, *ssa.Panic:
-				exits += 100
+			switch x := b.Instrs[len(b.Instrs)-1].(type) {
+			case *ssa.Return:
+				if guard.DefinitelyFails(x) {
+					errExits++
+				} else {
+					otherExits++
+				}
+			case *ssa.Panic:
+				errExits++
 			}
 		}
 	}
-	rl.Complete = startsAtMinus1 && condOK && exits == 1
-	rl.CompleteButErrors = startsAtMinus1 && condOK && otherExits == 0 && exits == 1+101*errExits
-	return rl
+	cl.Complete = exits == 1 && errExits == 0 && otherExits == 0
+	cl.CompleteButErrors = exits == 1 && otherExits == 0
+	return cl
+}
+
+// rangeLoopOf recognises the loop over all indices of a slice that an element
+// access IndexAddr(S, idx) belongs to (range loop, classic index loop or
+// range-over-int with bound len(S)).
+func rangeLoopOf(ia *ssa.IndexAddr) *rangeLoop {
+	cl := countedLoopOf(ia.Index)
+	if cl == nil {
+		return nil
+	}
+	condOK := false
+	if call, ok := guard.Strip(cl.Bound).(*ssa.Call); ok {
+		if b, ok := call.Call.Value.(*ssa.Builtin); ok && b.Name() == "len" && len(call.Call.Args) == 1 && sameSliceValue(call.Call.Args[0], ia.X) {
+			condOK = true
+		}
+	}
+	return &rangeLoop{Header: cl.Header, Slice: ia.X, Index: cl.Index, Blocks: cl.Blocks,
+		Complete: condOK && cl.Complete, CompleteButErrors: condOK && cl.CompleteButErrors}
 }
 
 // sameSliceValue: a and b are the same SSA value or loads of the same field
@@ -274,4 +388,50 @@ func valName(v ssa.Value) string {
 		return guard.CalleeName(&x.Call) + "()"
 	}
 	return v.Name()
+}
+
+// literalElements: v is loaded from an element of a local array/slice literal
+// (`for _, x := range [][]byte{a, b}`); returns the values stored into the
+// literal. Elements never stored are the zero value (reported as zero=true).
+func literalElements(v ssa.Value) (elems []ssa.Value, zero bool, ok bool) {
+	u, isU := guard.Strip(v).(*ssa.UnOp)
+	if !isU || u.Op != token.MUL {
+		return nil, false, false
+	}
+	ia, isIA := u.X.(*ssa.IndexAddr)
+	if !isIA {
+		return nil, false, false
+	}
+	base := ia.X
+	if sl, isSl := base.(*ssa.Slice); isSl {
+		base = sl.X
+	}
+	al, isAl := base.(*ssa.Alloc)
+	if !isAl {
+		return nil, false, false
+	}
+	at, isArr := al.Type().Underlying().(*types.Pointer).Elem().Underlying().(*types.Array)
+	if !isArr {
+		return nil, false, false
+	}
+	stored := map[int64]bool{}
+	for _, ref := range *al.Referrers() {
+		switch x := ref.(type) {
+		case *ssa.IndexAddr:
+			k, isK := guard.ConstInt(x.Index)
+			for _, r2 := range *x.Referrers() {
+				if st, isS := r2.(*ssa.Store); isS && st.Addr == ssa.Value(x) {
+					if !isK {
+						return nil, false, false
+					}
+					stored[k] = true
+					elems = append(elems, st.Val)
+				}
+			}
+		case *ssa.Slice:
+		default:
+			return nil, false, false
+		}
+	}
+	return elems, int64(len(stored)) < at.Len(), true
 }
